@@ -19,7 +19,7 @@ YOUR TASK: make a small source change (1-15 lines, in /tmp/wt_{pid}/src/pytestar
  (3) the breakage is SUBTLE: it should need something specific to manifest - an unusual input, a particular combination of options, a multi-step sequence of calls, a particular naming of modules, two code sites that each look fine alone, etc. - NOT something that ordinary use would expose at once. Think like a plausible refactoring slip or an "optimisation" a maintainer might merge.
  (4) Do not touch tests, docs or packaging; do not add new dependencies.
 
-Also write a DEMONSTRATION: a small standalone Python script /tmp/seed_{pid}/demo.py that uses the library's public API (run as `PYTHONPATH=<tree>/src /venv/bin/python demo.py`; it may create temporary files/directories under /tmp and must clean them up) and exits 0 when the property holds on the concrete scenario and exits 1 (printing what went wrong) when it is violated. It must exit 1 with your change applied and exit 0 on the unmodified tree (check both: `git stash` / `git stash pop` in the worktree, or compare against a second checkout you create with `git -C /tmp/wt_{pid} worktree add /tmp/wt_{pid}_orig HEAD` and remove afterwards).
+Also write a DEMONSTRATION: a small standalone Python script /tmp/seed_{pid}/demo.py that uses the library's public API (run as `PYTHONPATH=<tree>/src /venv/bin/python demo.py`; it may create temporary files/directories under /tmp and must clean them up) and exits 0 when the property holds on the concrete scenario and exits 1 (printing what went wrong) when it is violated. It must exit 1 with your change applied and exit 0 on the unmodified tree (check both: ``git apply -R` / `git apply` of your own diff in the worktree (NOT `git stash`: the stash is shared by all worktrees of the repository), or compare against a second checkout you create with `git -C /tmp/wt_{pid} worktree add /tmp/wt_{pid}_orig HEAD` and remove afterwards).
 
 Deliverables (create the directory /tmp/seed_{pid}/):
   /tmp/seed_{pid}/patch.diff   - output of `git -C /tmp/wt_{pid} diff` (the source change only)
